@@ -1,6 +1,7 @@
 package harness
 
 import (
+	"crypto/sha256"
 	"bytes"
 	"encoding/hex"
 	"fmt"
@@ -103,6 +104,35 @@ func TestFSDriverChild(t *testing.T) {
 			err = writers[f[1]].Close()
 		case "snap.discard":
 			err = writers[f[1]].Discard()
+		case "snap.read":
+			// the live storage is asked for the newest snapshot while writers may be open
+			var rf raft.SnapshotFile
+			rf, err = sn.SnapshotFile()
+			if err == nil {
+				res := "found=0"
+				if rf != nil {
+					md := rf.Metadata()
+					data, rerr := io.ReadAll(rf)
+					rf.Close()
+					if rerr != nil {
+						err = rerr
+					} else {
+						res = fmt.Sprintf("found=1 idx=%d term=%d len=%d sha=%x", md.LastIncludedIndex, md.LastIncludedTerm, len(data), sha256.Sum256(data))
+					}
+				}
+				if err == nil {
+					mark(fmt.Sprintf("e %d ok %s", k, res))
+					continue
+				}
+			}
+		case "state.read":
+			var tm uint64
+			var v string
+			tm, v, err = st.State()
+			if err == nil {
+				mark(fmt.Sprintf("e %d ok term=%d vote=%s", k, tm, hx([]byte(v))))
+				continue
+			}
 		}
 		if err != nil {
 			mark(fmt.Sprintf("e %d err %s", k, strings.ReplaceAll(err.Error(), "\n", " ")))
@@ -321,6 +351,20 @@ func enumerateCuts(muts []Mut, maxPerWrite int) []cutPoint {
 	return out
 }
 
+// afterEndMarks: a crash point that follows the last syscall of an operation produces the same
+// image as one after the operation returned; it is judged as the latter (the end marks that
+// directly follow are counted as passed).
+func afterEndMarks(muts []Mut, cp cutPoint) int {
+	upto := cp.mut
+	if cp.cut >= 0 {
+		return upto
+	}
+	for upto < len(muts) && muts[upto].Kind == "mark" && strings.HasPrefix(muts[upto].Mark, "e ") {
+		upto++
+	}
+	return upto
+}
+
 // marksBefore returns the index of the last completed op and the op in flight (-1 if none) at a cut.
 func marksBefore(muts []Mut, upto int) (done int, inflight int) {
 	done, inflight = -1, -1
@@ -412,7 +456,7 @@ func TestE2LogCrash(t *testing.T) {
 			if cp.cut >= 0 {
 				im.Apply(muts[cp.mut], cp.cut)
 			}
-			done, inflight := marksBefore(muts, cp.mut)
+			done, inflight := marksBefore(muts, afterEndMarks(muts, cp))
 			caseLine := fmt.Sprintf("script=%s | cut=after %d syscalls%s | done=%d inflight=%d", strings.Join(script, " / "), cp.mut,
 				map[bool]string{true: fmt.Sprintf(" + %d bytes of [%s]", cp.cut, muts[min(cp.mut, len(muts)-1)].String()), false: ""}[cp.cut >= 0], done, inflight)
 			rep.Case(caseLine, inflight >= 0)
